@@ -1,9 +1,12 @@
-"""C08 — operator embedding.  Correspondence of lean/QipVerif/Model/Embed.lean with
-qutip_qip.operations.gates.expand_operator, plus the direct numerical statement of the property."""
-import itertools, time
+"""C08 — operator embedding.  Correspondence of lean/QipVerif/Model/Embed.lean (digit tuples),
+Model/EmbedFlat.lean (flat indices of the stored matrices: kron / _Indexer arithmetic of QuTiP) and
+Model/EmbedArgs.lean (argument forms) with qutip_qip.operations.gates.expand_operator and with the QuTiP /
+numpy primitives the flat model transcribes, plus the direct numerical statement of the property."""
+import ast, itertools, os, time, warnings
 import numpy as np
 
 from vlib.core import PropertyCheck
+from vlib import paths
 
 
 def _impl():
@@ -26,8 +29,34 @@ def generic_oper(opdims, kind="generic", rng=None, unit=None):
     return qutip.Qobj(M, dims=[list(opdims), list(opdims)]), M
 
 
+def result_dtype_converted():
+    """Model variant read from the tree: does expand_operator convert its *result* to `dtype`
+    (a `.to(dtype)` call after the identities were built)?  Without it only the operand is converted and the
+    result is CSR whenever an identity factor is tensored (proposed repair fixes/C08-1.patch)."""
+    path = os.path.join(paths.REPO, "src", "qutip_qip", "operations", "gates.py")
+    tree = ast.parse(open(path).read())
+    for fn in ast.walk(tree):
+        if isinstance(fn, ast.FunctionDef) and fn.name == "expand_operator":
+            anchor = None
+            for n in ast.walk(fn):
+                if isinstance(n, ast.Assign) and any(isinstance(t, ast.Name) and t.id == "id_list" for t in n.targets):
+                    anchor = n.lineno
+            if anchor is None:
+                return False
+            for n in ast.walk(fn):
+                if (isinstance(n, ast.Call) and isinstance(n.func, ast.Attribute) and n.func.attr == "to"
+                        and n.lineno >= anchor
+                        and any(isinstance(a, ast.Name) and a.id == "dtype" for a in n.args)):
+                    return True
+    return False
+
+
 def classify_exc(e):
     msg = str(e)
+    if isinstance(e, TypeError) and "non-int of type 'NoneType'" in msg:
+        return "nosize"
+    if isinstance(e, ValueError) and "same input and output dimensions" in msg:
+        return "square"
     if isinstance(e, ValueError):
         if "target qutbis" in msg or "target qubits" in msg:
             return "count"
@@ -51,6 +80,27 @@ def impl_expand(dims, targets, oper, dtype=None):
         return "ok", r
     except Exception as e:  # canonicalised below
         return classify_exc(e), None
+
+
+def impl_call(**kw):
+    """expand_operator with arbitrary keyword arguments; deprecation warnings silenced."""
+    expand_operator, qutip = _impl()
+    with warnings.catch_warnings():
+        warnings.simplefilter("ignore")
+        try:
+            return "ok", expand_operator(**kw)
+        except Exception as e:
+            return classify_exc(e), None
+
+
+def cells_matrix(body, tot, M, with_row=True):
+    """matrix described by driver cells `X:Y:a:b` (or `Y:a:b`): entry = M[a, b]"""
+    E = np.zeros((tot, tot), dtype=complex)
+    for cell in filter(None, body.split(",")):
+        f = cell.split(":")
+        X, Y, a, b = map(int, f)
+        E[X, Y] = M[a, b]
+    return E
 
 
 def spec_matrix(dims, targets, M):
@@ -91,33 +141,63 @@ class C08(PropertyCheck):
         "QipVerif.C08.expand_eq_spec",
         "QipVerif.C08.newOrder_perm",
         "QipVerif.C08.newOrder_targets",
+        "QipVerif.C08.permute_digits",
+        "QipVerif.C08.permute_scatter",
+        "QipVerif.C08.tensor_digits",
+        "QipVerif.C08.flat_dims",
+        "QipVerif.C08.flat_eq_digits",
+        "QipVerif.C08.flat_eq_spec",
+        "QipVerif.C08.flat_matrix_eq_spec",
+        "QipVerif.C08.flat_entry_in_range",
         "QipVerif.C08.validate_rejects_count",
         "QipVerif.C08.validate_rejects_range",
         "QipVerif.C08.validate_rejects_dims",
         "QipVerif.C08.validate_ok_iff",
+        "QipVerif.C08.args_plain",
+        "QipVerif.C08.args_forms",
+        "QipVerif.C08.args_one_sound",
+        "QipVerif.C08.args_sound",
+        "QipVerif.C08.args_cyclic",
         "QipVerif.C08.embed_apply",
         "QipVerif.C08.embed_mul",
         "QipVerif.C08.embed_one",
         "QipVerif.C08.embed_comp",
     ]
-    level_text = ("Lean 4 theorems, for every register size, dimension vector, injective target list and operator: the "
-                  "matrix element computed by the model of expand_operator (new_order loops + tensor/permute on digit tuples) "
-                  "equals the specified one (operator entry on the target digits, delta elsewhere); new_order is a permutation; "
-                  "validation accepts exactly well-formed requests. The model is tied to the code by a correspondence that is "
-                  "exhaustive over all dims in {2,3,4}^N, N<=3 (quick) / N<=4 (thorough) and all target tuples, sampled beyond.")
-    level_note = ("Trusted: Lean kernel (axioms propext, Classical.choice, Quot.sound); meaning of qutip.tensor and "
-                  "Qobj.permute as modelled in Model/Embed.lean (validated by the correspondence, not proved); the harness py/props/c08.py.")
-    technique = "Lean 4 proof (induction over the list algorithm; Mathlib Kronecker/reindex algebra) + model/implementation correspondence"
+    level_text = ("Lean 4 theorems, for every register size, dimension vector (positive entries), injective in-range target "
+                  "list and operator: the entry stored at flat row X, flat column Y of what expand_operator returns — computed by "
+                  "a model that transcribes QuTiP's own index arithmetic (tensor = iterated kron with "
+                  "kron(A,B)[i,j] = A[i/n, j/n]*B[i%n, j%n]; Qobj.permute = permute.pyx's _Indexer: cumprod loop, single(), "
+                  "all(), placement out[perm[n], perm[m]] = in[n, m]) applied to the code's new_order — equals the specified one: "
+                  "the operator's entry at the flat indices formed by the target digits of X and Y, times a delta on all other "
+                  "digits (flat_eq_spec, flat_matrix_eq_spec); the meaning of tensor and permute on subsystems is derived, not "
+                  "assumed (tensor_digits, permute_digits), and the flat model equals the digit-tuple model used by the other "
+                  "properties (flat_eq_digits). new_order is a permutation; validation accepts exactly well-formed requests; "
+                  "every accepted call in any argument form (N=, dims=None, targets None/int/list, cyclic_permutation) is such a "
+                  "well-formed placement on dims[:N] (args_*). Tie: the whole matrix is compared position by position, "
+                  "exhaustively for all dims in {2,3,4}^N, N<=3 (quick) / N<=4 (thorough) and all target tuples, sampled beyond; "
+                  "the transcribed index conventions are compared with QuTiP's and numpy's primitives exhaustively on small shapes.")
+    level_note = ("Trusted: Lean kernel (axioms propext, Classical.choice, Quot.sound); that QuTiP's compiled kron and "
+                  "permute.dimensions realise the index formulas written in Model/EmbedFlat.lean (transcribed from permute.pyx / "
+                  "the Kronecker definition; compared exhaustively on small shapes with qutip.core.data and numpy on every run, "
+                  "not proved); the harness py/props/c08.py. No longer trusted: the meaning of tensor/permute on subsystems.")
+    technique = ("Lean 4 proof (mixed-radix index arithmetic of QuTiP's kron/_Indexer refined to digit tuples; induction over the "
+                 "list algorithm; Mathlib Kronecker/reindex algebra) + model/implementation correspondence")
     trusted_base = [
         "Lean 4.33 kernel; axioms propext, Classical.choice, Quot.sound",
-        "meaning of qutip.tensor (Kronecker product, first factor most significant) and Qobj.permute(order) "
-        "(result subsystem p = argument subsystem order[p]) as written in Model/Embed.lean:unpermute/expandEntry, "
-        "validated by this correspondence",
-        "py/props/c08.py (harness, canonicalisation of exceptions to {count,range,dims,index})",
+        "index conventions of the stored matrices as transcribed in Model/EmbedFlat.lean: qutip.core.data.kron "
+        "(row index = i_A*dim_B + i_B), permute.pyx _Indexer.__init__/single/all and the placement of "
+        "_indices_csr_full / indices_dense, Qobj.permute passing dims[0] and order unchanged; compared on every run with "
+        "qutip.core.data.permute.dimensions (Dense, CSR), Qobj.permute, qutip.core.data.kron, qutip.tensor and numpy "
+        "(reshape/transpose, kron) for all structures in {2,3,4}^n, n<=3 (4 thorough) and all orders",
+        "data-layer conversions of QuTiP (oper.to(dtype), dispatch of kron/permute between CSR/Dense/Dia) preserve the matrix",
+        "py/props/c08.py (harness, canonicalisation of exceptions to {count,range,dims,index,permute,square,nosize})",
     ]
-    assumptions = ["linearity of expand_operator in the operator (additionally sampled with matrix units and random dense operators)"]
-    rule = ("case = (dims over {2,3,4}, injective target tuple, operator kind, dtype, sampled rows); non-trivial = "
-            "at least one non-target subsystem or a non-identity target order; malformed stream counted separately")
+    assumptions = ["linearity of expand_operator in the operator (additionally sampled with matrix units and random dense operators)",
+                   "dimensions are positive (QuTiP refuses zero dimensions when the Qobj is built)"]
+    rule = ("case = (dims over {2,3,4}, injective target tuple, operator kind, dtype, whole matrix or sampled rows) for the "
+            "flat-index and the digit-tuple model; (structure, order) / (D, rest) for the index conventions; (N, dims, targets "
+            "form, operator dims, cyclic) for the argument forms; non-trivial = at least one non-target subsystem or a "
+            "non-identity target order / a non-identity order; malformed and validation streams counted separately")
 
     # ---------------------------------------------------------------------------------
     def _compare_case(self, ctx, res, dims, targets, rows, kind="generic", dtype=None, unit=None):
@@ -136,7 +216,15 @@ class C08(PropertyCheck):
             res.disagree(inp, [dims, dims], r.dims, "dims of the result", w)
             return
         lines = [f"row dims={','.join(map(str, dims))} targets={','.join(map(str, targets))} x={X}" for X in rows]
+        use_flat = int(np.prod(dims)) <= 300 or ctx.rng.random() < (0.05 if ctx.thorough else 1.0)
+        if use_flat:     # the same rows from the flat-index model
+            lines += ["f" + l for l in lines]
         outs = ctx.driver("drv_embed").run(lines)
+        if use_flat:
+            if outs[:len(rows)] != outs[len(rows):]:
+                res.disagree(inp, outs[:len(rows)], outs[len(rows):], "digit-tuple model and flat-index model differ", w)
+                return
+            outs = outs[len(rows):]
         for X, o in zip(rows, outs):
             exp = {}
             body = o[3:].strip() if o.startswith("ok") else None
@@ -229,8 +317,303 @@ class C08(PropertyCheck):
         res.notes.append(f"validation verdicts compared exhaustively for N <= {maxN}: dims over {{2,3}}, all target tuples of "
                          f"length 1-3 over -1..N, all operator dims tuples over {{2,3}} ({len(cases)} requests)")
 
+
+    # ---------------------------------------------------------------------------------
+    # the flat-index model (Model/EmbedFlat.lean): the remaining trusted conventions, then the whole matrix
+    def _conventions(self, ctx, res, maxn):
+        """The index conventions the flat model transcribes, compared with the primitives themselves:
+        `_Indexer` / placement with qutip.core.data.permute.dimensions (Dense and CSR), Qobj.permute and
+        numpy's reshape/transpose; `kron` with qutip.core.data.kron, qutip.tensor and numpy.kron."""
+        import qutip
+        from qutip.core import data as _data
+        drv = ctx.driver("drv_embed")
+        cases = [(list(st), list(o)) for n in range(1, maxn + 1)
+                 for st in itertools.product((2, 3, 4), repeat=n) for o in itertools.permutations(range(n))]
+        outs = drv.run([f"index dims={','.join(map(str, st))} order={','.join(map(str, o))}" for st, o in cases])
+        for (st, order), o in zip(cases, outs):
+            inp = {"convention": "permute", "structure": st, "order": order}
+            res.case(inp, nontrivial=order != sorted(order), tags=["convention=permute", f"n={len(st)}"])
+            size, n = int(np.prod(st)), len(st)
+            if not o.startswith("ok "):
+                res.disagree(inp, o, "ok", "the flat model refuses a permutation")
+                continue
+            nd_s, perm_s = o[3:].split("|")
+            nd = [int(x) for x in nd_s.split(",")]
+            perm = np.array([int(x) for x in perm_s.split(",")])
+            M = (np.arange(size * size).reshape(size, size) + 1).astype(complex)
+            if len(perm) != size or sorted(perm.tolist()) != list(range(size)):
+                res.disagree(inp, perm.tolist(), "a permutation of the flat indices", "index.all() of the flat model")
+                continue
+            exp = np.zeros_like(M)
+            exp[np.ix_(perm, perm)] = M          # out[perm[n], perm[m]] = in[n, m]
+            q = qutip.Qobj(M, dims=[st, st]).permute(order)
+            got = {
+                "qutip permute.dimensions (Dense)": _data.permute.dimensions(_data.Dense(M), st, order).to_array(),
+                "qutip permute.dimensions (CSR)": _data.permute.dimensions(_data.to(_data.CSR, _data.Dense(M)), st, order).to_array(),
+                "numpy reshape/transpose": M.reshape(st + st).transpose(order + [n + x for x in order]).reshape(size, size),
+                "Qobj.permute": q.full(),
+            }
+            if nd != [st[x] for x in order] or q.dims != [nd, nd]:
+                res.disagree(inp, nd, q.dims, "new_dimensions of the permuted object")
+            for name, g in got.items():
+                if not np.array_equal(g, exp):
+                    res.disagree(inp, "placement by the flat model's index.all()", name, "index convention of " + name)
+        # orders that are not permutations: same refusal
+        bad = []
+        for n in (1, 2, 3):
+            for st in itertools.product((2, 3), repeat=n):
+                for ln in (n - 1, n, n + 1):
+                    for order in itertools.product(range(n + 2), repeat=ln):
+                        if ln and sorted(order) != list(range(n)):
+                            bad.append((list(st), list(order)))
+        outs = drv.run([f"index dims={','.join(map(str, st))} order={','.join(map(str, o))}" for st, o in bad])
+        for (st, order), o in zip(bad, outs):
+            size = int(np.prod(st))
+            try:
+                _data.permute.dimensions(_data.Dense(np.eye(size, dtype=complex)), st, order)
+                impl = "ok"
+            except ValueError as e:
+                m = str(e)
+                impl = ("err order-length" if "wrong number" in m else "err order-element" if "invalid order element" in m
+                        else "err order-duplicate" if "duplicate order element" in m else "err other:" + m[:40])
+            except Exception as e:
+                impl = "err other:" + type(e).__name__
+            inp = {"convention": "permute-refusal", "structure": st, "order": order}
+            res.case(inp, nontrivial=True, tags=["convention=permute-refusal", o])
+            if o.split("|")[0].strip() != impl and not (o.startswith("ok") and impl == "ok"):
+                res.disagree(inp, o[:60], impl, "refusal of an order by _Indexer")
+        # kron with identities
+        kc = [(D, list(rest)) for D in (1, 2, 3, 4) for m in range(0, 3 if not ctx.thorough else 4)
+              for rest in itertools.product((2, 3, 4), repeat=m)]
+        outs = drv.run([f"kron d={D} rest={','.join(map(str, rest))}" for D, rest in kc])
+        for (D, rest), o in zip(kc, outs):
+            inp = {"convention": "kron", "D": D, "rest": rest}
+            res.case(inp, nontrivial=bool(rest), tags=["convention=kron", f"m={len(rest)}"])
+            P = (np.arange(D * D).reshape(D, D) + 1).astype(complex)
+            tot = D * int(np.prod(rest)) if rest else D
+            E = cells_matrix(o[3:].strip(), tot, P)
+            d, a = _data.Dense(P), P
+            for r in rest:
+                d = _data.kron(d, qutip.identity(r).data)
+                a = np.kron(a, np.eye(r))
+            t = qutip.tensor([qutip.Qobj(P)] + [qutip.identity(r) for r in rest]).full()
+            for name, g in (("qutip.core.data.kron", d.to_array()), ("numpy.kron", a), ("qutip.tensor", t)):
+                if g.shape != E.shape or not np.array_equal(g, E):
+                    res.disagree(inp, "entries of the flat model's tensorIds", name, "index convention of " + name)
+        res.notes.append(f"index conventions of the flat model compared with the primitives: permute over all structures in "
+                         f"{{2,3,4}}^n, n <= {maxn}, all orders (qutip permute.dimensions Dense/CSR, Qobj.permute, numpy "
+                         f"reshape/transpose), {len(bad)} non-permutation orders (same refusal), kron with identities for "
+                         f"{len(kc)} shapes (qutip.core.data.kron, qutip.tensor, numpy.kron)")
+
+    def _flat_exhaustive(self, ctx, res, maxN):
+        """Every stored entry (row, col) of expand_operator(...).full() against the flat-index model."""
+        cases = list(all_cases(maxN))
+        outs = ctx.driver("drv_embed").run(
+            [f"flat dims={','.join(map(str, d))} targets={','.join(map(str, t))}" for d, t in cases])
+        for (dims, ts), o in zip(cases, outs):
+            od = [dims[t] for t in ts]
+            oper, M = generic_oper(od)
+            st, r = impl_expand(dims, ts, oper)
+            inp = {"flat": True, "dims": dims, "targets": ts}
+            res.case(inp, nontrivial=(len(ts) < len(dims) or ts != sorted(ts)),
+                     tags=["flat-matrix", f"N={len(dims)}", f"k={len(ts)}"])
+            w = {"kind": "valid", "dims": dims, "targets": ts}
+            if st != "ok":
+                res.disagree(inp, "ok", st, "implementation rejects a valid embedding", w)
+                continue
+            if not o.startswith("ok "):
+                res.disagree(inp, o, "ok", "the flat model refuses (QuTiP's permute would raise)", w)
+                continue
+            nd_s, body = o[3:].split("|")
+            nd = [int(x) for x in nd_s.split(",")]
+            if r.dims != [nd, nd]:
+                res.disagree(inp, [nd, nd], r.dims, "dims of the result", w)
+                continue
+            full = r.full()
+            E = cells_matrix(body, int(np.prod(dims)), M)
+            if full.shape != E.shape or not np.array_equal(full, E):
+                badpos = np.argwhere(full != E)[0].tolist() if full.shape == E.shape else "shape"
+                res.disagree(dict(inp, position=badpos), str(E[tuple(badpos)]) if badpos != "shape" else str(E.shape),
+                             str(full[tuple(badpos)]) if badpos != "shape" else str(full.shape),
+                             "stored entry (row, col) of the expanded operator", w)
+        res.notes.append(f"flat-index model: the whole matrix (every row/column position) compared for all dims in "
+                         f"{{2,3,4}}^N, N <= {maxN}, all injective target tuples of length 1-3 ({len(cases)} matrices)")
+
+    # ---------------------------------------------------------------------------------
+    # the other argument forms (Model/EmbedArgs.lean)
+    @staticmethod
+    def _make_oper(opL, opR):
+        import qutip
+        if list(opL) == list(opR):
+            return generic_oper(opL)
+        a, b = int(np.prod(opL)), int(np.prod(opR))
+        M = (np.arange(a * b).reshape(a, b) + 1).astype(complex)
+        return qutip.Qobj(M, dims=[list(opL), list(opR)]), M
+
+    @staticmethod
+    def _args_kwargs(N, dims, tk, tv, cyc):
+        kw = {}
+        if N is not None:
+            kw["N"] = N
+        if dims is not None:
+            kw["dims"] = list(dims)
+        if tk == "int":
+            kw["targets"] = tv
+        elif tk == "list":
+            kw["targets"] = list(tv)
+        if cyc:
+            kw["cyclic_permutation"] = True
+        return kw
+
+    def _args_space(self, ctx):
+        Ns = [None, 0, 1, 2, 3]
+        dimss = [None] + [list(d) for n in (1, 2, 3) for d in itertools.product((2, 3), repeat=n)]
+        targs = ([("none", None)] + [("int", t) for t in range(-1, 4)] + [("list", [t]) for t in range(-1, 4)]
+                 + [("list", [a, b]) for a in range(-1, 4) for b in range(-1, 4)])
+        ops = [([2], [2]), ([3], [3]), ([2, 2], [2, 2]), ([2, 3], [2, 3]), ([3, 2], [3, 2]), ([2], [3]), ([2, 2], [4])]
+        for N in Ns:
+            for dims in dimss:
+                for tk, tv in targs:
+                    for opL, opR in ops:
+                        for cyc in (False, True):
+                            yield N, dims, tk, tv, opL, opR, cyc
+
+    def _args_exhaustive(self, ctx, res):
+        drv = ctx.driver("drv_embed")
+        cases = list(self._args_space(ctx))
+        if not ctx.thorough:          # quick: every non-cyclic request, a seeded third of the cyclic ones
+            cases = [c for c in cases if not c[6] or ctx.rng.random() < 0.34]
+        def line(N, dims, tk, tv, opL, opR, cyc):
+            t = "none" if tk == "none" else ("i%d" % tv if tk == "int" else "l" + ",".join(map(str, tv)))
+            return (f"args n={'none' if N is None else N} dims={'none' if dims is None else ','.join(map(str, dims))} "
+                    f"t={t} opl={','.join(map(str, opL))} opr={','.join(map(str, opR))} cyclic={int(cyc)}")
+        outs = drv.run([line(*c) for c in cases])
+        opers, flat_cache, pending = {}, {}, []
+        for c, o in zip(cases, outs):
+            N, dims, tk, tv, opL, opR, cyc = c
+            key = (tuple(opL), tuple(opR))
+            if key not in opers:
+                opers[key] = self._make_oper(opL, opR)
+            oper, M = opers[key]
+            st, r = impl_call(oper=oper, **self._args_kwargs(N, dims, tk, tv, cyc))
+            inp = {"args": {"N": N, "dims": dims, "targets": tv if tk != "none" else None, "targets_form": tk,
+                            "opdims": [opL, opR], "cyclic": cyc}}
+            w = {"kind": "args", "N": N, "dims": dims, "tk": tk, "tv": tv, "opL": opL, "opR": opR, "cyclic": cyc}
+            model = o.split(" ")[0] if o.startswith("ok") else o.replace("err ", "")
+            res.case(inp, nontrivial=True, tags=["args", f"args-verdict={model}", f"cyclic={int(cyc)}",
+                                                  f"targets-form={tk}", "N-given" if N is not None else "N-default",
+                                                  "dims-given" if dims is not None else "dims-default"])
+            if o.startswith("ok"):
+                groups = [g for g in o[3:].strip().split("|")] if o[3:].strip() else []
+                placements = []
+                for g in groups:
+                    ds, tsx = g.split(";")
+                    placements.append(([int(x) for x in ds.split(",") if x], [int(x) for x in tsx.split(",") if x]))
+                if st != "ok":
+                    res.disagree(inp, "ok", st, "verdict for this argument form", w)
+                    continue
+                rs = r if isinstance(r, list) else [r]
+                if isinstance(r, list) != bool(cyc) or len(rs) != len(placements):
+                    res.disagree(inp, len(placements), len(rs), "number of returned operators", w)
+                    continue
+                pending.append((inp, w, M, placements, rs))
+                for pl in placements:
+                    flat_cache[(tuple(pl[0]), tuple(pl[1]))] = None
+            else:
+                if st != model:
+                    res.disagree(inp, model, st, "verdict for this argument form", w)
+        keys = list(flat_cache)
+        outs = drv.run([f"flat dims={','.join(map(str, d))} targets={','.join(map(str, t))}" for d, t in keys])
+        for k, o in zip(keys, outs):
+            flat_cache[k] = o
+        for inp, w, M, placements, rs in pending:
+            for j, ((reg, nn), rj) in enumerate(zip(placements, rs)):
+                o = flat_cache[(tuple(reg), tuple(nn))]
+                if not o.startswith("ok "):
+                    res.disagree(inp, o, "ok", "the flat model refuses an accepted placement", w)
+                    break
+                nd_s, body = o[3:].split("|")
+                nd = [int(x) for x in nd_s.split(",")]
+                E = cells_matrix(body, int(np.prod(reg)), M)
+                if rj.dims != [nd, nd] or rj.full().shape != E.shape or not np.array_equal(rj.full(), E):
+                    res.disagree(dict(inp, result=j), {"dims": nd, "targets": nn}, rj.dims,
+                                 "operator returned for this argument form", w)
+                    break
+        res.notes.append(f"argument forms compared with Model/EmbedArgs.lean: N in {{None,0..3}}, dims None or over {{2,3}}^(1..3), "
+                         f"targets None / integer / list over -1..3, square and non-square operators, cyclic_permutation "
+                         f"({len(cases)} requests; accepted ones compared entry by entry with the flat model)")
+
+    DTYPES = [None, "csr", "CSR", "dense", "Dense", "dia", "Dia"]
+
+    def _dtype_sweep(self, ctx, res):
+        import qutip
+        conv = result_dtype_converted()
+        dts = self.DTYPES + [qutip.data.Dense, qutip.data.CSR, qutip.data.Dia]
+        alphabet = (2, 3, 4) if ctx.thorough else (2, 3)
+        seen_storage = {}
+        for dims, ts in all_cases(3, alphabet):
+            od = [dims[t] for t in ts]
+            oper, M = generic_oper(od)
+            exp = spec_matrix(dims, ts, M)
+            for dt in dts:
+                name = dt if (dt is None or isinstance(dt, str)) else dt.__name__
+                st, r = impl_expand(dims, ts, oper, dt)
+                inp = {"dims": dims, "targets": ts, "dtype": str(name)}
+                w = {"kind": "dtype", "dims": dims, "targets": ts, "dtype": None if dt is None else str(name)}
+                if st != "ok":
+                    res.case(inp, nontrivial=True, tags=["dtype-sweep", f"dtype={name}"])
+                    res.disagree(inp, "ok", st, "a dtype option makes a valid embedding fail", w)
+                    continue
+                storage = type(r.data).__name__
+                res.case(inp, nontrivial=True, tags=["dtype-sweep", f"dtype={name}", f"storage={storage}"])
+                seen_storage.setdefault(str(name), set()).add(storage)
+                if r.dims != [dims, dims] or not np.array_equal(r.full(), exp):
+                    res.disagree(inp, "the specified embedding", "differs", "matrix elements under a dtype option", w)
+                elif conv and storage.lower() != (str(name).lower() if dt is not None else "csr"):
+                    res.disagree(inp, str(name), storage, "storage type of the result (the tree converts the result to dtype)")
+        if not conv:
+            off = {k: sorted(v) for k, v in seen_storage.items() if k != "None" and {x.lower() for x in v} != {k.lower()}}
+            res.notes.append("dtype: matrix elements identical under every dtype option; this tree converts only the operand, "
+                             f"so the result's storage type is not the requested one when identities are tensored {off} "
+                             "(proposed repair fixes/C08-1.patch; tests/test_gates.py::test_dtype fails for this reason)")
+        else:
+            res.notes.append("dtype: matrix elements identical under every dtype option and the result is stored in the requested type")
+
+    OUTSIDE = ["float-target", "str-target", "none-in-targets", "dims-not-iterable", "oper-not-qobj", "unknown-dtype"]
+
+    @staticmethod
+    def _outside_call(case):
+        oper, _ = generic_oper([2])
+        kw = {"float-target": dict(oper=oper, dims=[2, 2], targets=[0.0]),
+              "str-target": dict(oper=oper, dims=[2, 2], targets=["0"]),
+              "none-in-targets": dict(oper=oper, dims=[2, 2], targets=[None]),
+              "dims-not-iterable": dict(oper=oper, dims=5, targets=[0]),
+              "oper-not-qobj": dict(oper=np.eye(2), dims=[2, 2], targets=[0]),
+              "unknown-dtype": dict(oper=oper, dims=[2, 2], targets=[0], dtype="no-such-type")}[case]
+        expand_operator, _q = _impl()
+        with warnings.catch_warnings():
+            warnings.simplefilter("ignore")
+            try:
+                expand_operator(**kw)
+                return "ok"
+            except Exception as e:
+                return type(e).__name__
+
+    def _outside(self, ctx, res):
+        for case in self.OUTSIDE:
+            v = self._outside_call(case)
+            res.case({"outside-model": case}, nontrivial=False, tags=["outside-model", f"{case}={v}"])
+            if v == "ok":
+                res.disagree({"outside-model": case}, "an exception", "a value", "malformed request outside the model returned a value",
+                             {"kind": "outside", "case": case})
+
     def correspondence(self, ctx, res):
         rng = ctx.rng
+        self._conventions(ctx, res, 4 if ctx.thorough else 3)
+        self._flat_exhaustive(ctx, res, 4 if ctx.thorough else 3)
+        self._args_exhaustive(ctx, res)
+        self._dtype_sweep(ctx, res)
+        self._outside(ctx, res)
         self._validation_exhaustive(ctx, res, 3)
         exhaustN = 4 if ctx.thorough else 3
         nrows = 8 if ctx.thorough else 6
@@ -279,6 +662,23 @@ class C08(PropertyCheck):
                     bad = np.argwhere(r.full() != exp)[:1].tolist() if r.full().shape == exp.shape else "shape"
                     return True, f"matrix element mismatch at {bad}"
             return False, "equals the specified embedding"
+        elif w["kind"] == "dtype":
+            dims, ts, dt = w["dims"], w["targets"], w["dtype"]
+            import qutip
+            dt = {"Dense": qutip.data.Dense, "CSR": qutip.data.CSR, "Dia": qutip.data.Dia}.get(dt, dt) \
+                if dt in ("Dense", "CSR", "Dia") and ctx.rng.random() < 0.5 else dt
+            oper, M = generic_oper([dims[t] for t in ts])
+            st, r = impl_expand(dims, ts, oper, dt)
+            if st != "ok":
+                return True, f"valid embedding rejected under dtype={dt} ({st})"
+            if r.dims != [dims, dims] or not np.array_equal(r.full(), spec_matrix(dims, ts, M)):
+                return True, f"matrix elements differ from the specified embedding under dtype={dt}"
+            return False, "equals the specified embedding"
+        elif w["kind"] == "outside":
+            v = self._outside_call(w["case"])
+            return (v == "ok"), f"{w['case']}: {v}"
+        elif w["kind"] == "args":
+            return self._oracle_args(w)
         else:
             dims, ts, od = w["dims"], w["targets"], w["opdims"]
             N = len(dims)
@@ -290,7 +690,63 @@ class C08(PropertyCheck):
                 return True, "malformed request accepted"
             return False, f"verdict {st}"
 
+    def _oracle_args(self, w):
+        """C08's statement for a call in any argument form, judged on the returned object(s) themselves:
+        whatever is returned must be the embedding of the operator at the (shifted) targets on the register it
+        claims (`result.dims`), the targets must be non-negative, distinct and inside that register with matching
+        dimensions, and the register must be the one asked for; a well-formed standard request must be accepted."""
+        N, dims, tk, tv, opL, opR, cyc = w["N"], w["dims"], w["tk"], w["tv"], w["opL"], w["opR"], w["cyclic"]
+        oper, M = self._make_oper(opL, opR)
+        st, r = impl_call(oper=oper, **self._args_kwargs(N, dims, tk, tv, cyc))
+        ts = list(range(len(opL))) if tk == "none" else ([tv] if tk == "int" else list(tv))
+        want = dims if dims is not None else ([2] * N if N is not None else None)
+        consistent = want is not None and (N is None or N == len(want))
+        wellformed = (consistent and list(opL) == list(opR) and len(ts) == len(opL) and len(set(ts)) == len(ts)
+                      and all(0 <= t < len(want) for t in ts) and [want[t] for t in ts] == list(opL))
+        if st != "ok":
+            if wellformed and not cyc:
+                return True, f"well-formed request rejected ({st})"
+            return False, f"verdict {st}"
+        rs = r if isinstance(r, list) else [r]
+        if bool(cyc) != isinstance(r, list):
+            return True, "wrong kind of return value"
+        n_eff = N if N is not None else len(want)
+        if cyc and len(rs) != n_eff:
+            return True, f"{len(rs)} operators returned for N={n_eff}"
+        if list(opL) != list(opR) or len(ts) != len(opL):
+            return True, "malformed request accepted (operator shape / target count)"
+        for j, rj in enumerate(rs):
+            tj = [(t + j) % n_eff for t in ts] if cyc else ts
+            reg = rj.dims[0]
+            if rj.dims[0] != rj.dims[1]:
+                return True, "result is not square in its dims"
+            if consistent and reg != list(want):
+                return True, f"result lives on {reg}, asked for {want}"
+            if any(t >= n_eff for t in tj):
+                return True, "out-of-range target accepted"
+            if len(set(tj)) != len(tj) or any(not 0 <= t < len(reg) for t in tj) or [reg[t] for t in tj] != list(opL):
+                return True, f"malformed request accepted (targets {tj} on register {reg})"
+            if not np.array_equal(rj.full(), spec_matrix(reg, tj, M)):
+                return True, f"operator {j} is not the specified embedding at targets {tj} on {reg}"
+        return False, "every returned operator is the specified embedding"
+
     def _random_witness(self, rng):
+        u = rng.random()
+        if u < 0.15:
+            N = rng.choice([None, None, 1, 2, 3])
+            dims = rng.choice([None, None] + [[rng.choice([2, 3]) for _ in range(rng.randint(1, 3))] for _ in range(3)])
+            if N is None and dims is None:
+                dims = [2, 2, 2]
+            tk = rng.choice(["none", "int", "list", "list"])
+            tv = None if tk == "none" else (rng.randint(-1, 3) if tk == "int" else [rng.randint(-1, 3) for _ in range(rng.randint(1, 2))])
+            opL = rng.choice([[2], [3], [2, 2], [2, 3], [3, 2]])
+            return {"kind": "args", "N": N, "dims": dims, "tk": tk, "tv": tv, "opL": opL, "opR": opL,
+                    "cyclic": rng.random() < 0.3}
+        if u < 0.25:
+            N = rng.randint(1, 4)
+            dims = [rng.choice([2, 3, 4]) for _ in range(N)]
+            return {"kind": "dtype", "dims": dims, "targets": rng.sample(range(N), rng.randint(1, min(3, N))),
+                    "dtype": rng.choice([None, "csr", "CSR", "dense", "Dense", "dia", "Dia"])}
         if rng.random() < 0.8:
             N = rng.randint(1, 6)
             dims = [rng.choice([2, 3, 4]) if N < 6 else 2 for _ in range(N)]
